@@ -59,6 +59,13 @@ func (t *Translator) TransformStreamingResponse(ctx context.Context, openaiStrea
 	streamErr := t.transformStreamingSync(ctx, openaiStream, w, rc, state)
 
 	if streamErr != nil {
+		// nothing has gone out yet: take the event-stream headers back, so that the caller can
+		// still answer with an error status instead of an empty 200
+		if !state.messageStartSent {
+			w.Header().Del(constants.HeaderContentType)
+			w.Header().Del("Cache-Control")
+			w.Header().Del("Connection")
+		}
 		return streamErr
 	}
 
